@@ -48,6 +48,9 @@ def concrete(tag: str, v: int = 0, palette: int = 0):
         return None
     if tag == "bool":
         return bool(v % 2)
+    if tag == "intc":
+        # distinct ints whose hash() collides pairwise: -1 / -2, 0 / 2**61-1 (equality preserving, NOT order preserving)
+        return {0: 0, 1: -1, 2: -2, 3: 2 ** 61 - 1, 4: 2 ** 61 - 2, 5: -(2 ** 61) + 1}.get(v, v)
     if tag == "int":
         return [v, v * 10 ** 12 + (1 if v else 0), v - 1000][palette % 3]
     if tag == "float":
